@@ -79,6 +79,57 @@ Section CostR.
     cbn [F f0 fadd RA map] in *. change (F RA) with R in *. destruct H as (H1 & H2). split; lra.
   Qed.
 End CostR.
+(* ---- the weighted multi-objective: the cost of a path is the weighted sum of its costs under the components ---- *)
+Section MultiR.
+  Variable S : Type.
+  Variable d : S -> S -> R.
+  Notation pt := (pt RA S).
+  (* an additive path cost is the sum of the motion costs *)
+  Fixpoint psum (m : pt -> pt -> R) (p : list pt) : R :=
+    match p with a :: ((b :: _) as t) => m a b + psum m t | _ => 0 end.
+  Lemma fold_psum m : forall (t : list pt) (s0 : pt) (c : R),
+    snd (fold_left (fun (acc : pt * F RA) (s : pt) => (s, fadd RA (snd acc) (m (fst acc) s))) t (s0, c)) = c + psum m (s0 :: t).
+  Proof.
+    induction t as [|s t IH]; intros s0 c; cbn [fold_left snd fst].
+    - cbn [psum]. lra.
+    - rewrite IH. cbn [fadd RA fst snd]. change (psum m (s0 :: s :: t)) with (m s0 s + psum m (s :: t)). lra.
+  Qed.
+  Lemma path_cost_psum m (p : list pt) : path_cost RA S (f0 RA) (fadd RA) m p = psum m p.
+  Proof.
+    unfold path_cost. destruct p as [|s0 t]; [reflexivity|]. rewrite fold_psum. cbn [F f0 fadd RA]. lra.
+  Qed.
+  Definition lin (comps : list (R * (pt -> pt -> R))) (a b : pt) : R := fold_right (fun k acc => fst k * snd k a b + acc) 0 comps.
+  Lemma multi_motion_lin : forall comps a b, multi_motion RA S comps a b = lin comps a b.
+  Proof.
+    intros comps a b. unfold multi_motion.
+    assert (G : forall l c, fold_left (fun (c : F RA) (k : F RA * (pt -> pt -> F RA)) => fadd RA c (fmul RA (fst k) (snd k a b))) l c = c + lin l a b).
+    { induction l as [|k t IH]; intros c; cbn [fold_left]; [unfold lin; cbn [fold_right]; lra|]. rewrite IH.
+      change (lin (k :: t) a b) with (fst k * snd k a b + lin t a b). cbn [fadd fmul RA]. change (F RA) with R in *. lra. }
+    rewrite G. cbn [f0 RA]. lra.
+  Qed.
+  Lemma psum_ext m1 m2 : (forall a b, m1 a b = m2 a b) -> forall p, psum m1 p = psum m2 p.
+  Proof. intros H p. induction p as [|a t IH]; [reflexivity|]. destruct t as [|b r]; [reflexivity|]. change (m1 a b + psum m1 (b :: r) = m2 a b + psum m2 (b :: r)). rewrite H, IH. reflexivity. Qed.
+  Lemma psum_lin : forall comps p, psum (lin comps) p = fold_right (fun k acc => fst k * psum (snd k) p + acc) 0 comps.
+  Proof.
+    induction comps as [|k t IH]; intros p.
+    - cbn [fold_right]. induction p as [|a r IHp]; [reflexivity|]. destruct r as [|b r']; [reflexivity|].
+      change (lin [] a b + psum (lin []) (b :: r') = 0). rewrite IHp. unfold lin. cbn [fold_right]. lra.
+    - cbn [fold_right]. rewrite <- IH. clear IH. induction p as [|a r IHp]; [cbn [psum]; lra|]. destruct r as [|b r']; [cbn [psum]; lra|].
+      change (lin (k :: t) a b + psum (lin (k :: t)) (b :: r') = fst k * (snd k a b + psum (snd k) (b :: r')) + (lin t a b + psum (lin t) (b :: r'))).
+      rewrite IHp. change (lin (k :: t) a b) with (fst k * snd k a b + lin t a b). lra.
+  Qed.
+  (* MultiOptimizationObjective: the cost of a path is the weighted sum of the costs the components give it *)
+  Theorem cost_multi_is_weighted_sum (comps : list (R * (pt -> pt -> R))) (p : list pt) :
+    cost_multi RA S comps p = fold_right (fun k acc => fst k * path_cost RA S (f0 RA) (fadd RA) (snd k) p + acc) 0 comps.
+  Proof.
+    unfold cost_multi. rewrite path_cost_psum. rewrite (psum_ext _ (lin comps) (multi_motion_lin comps)). rewrite psum_lin.
+    induction comps as [|k t IH]; cbn [fold_right]; [reflexivity|]. rewrite IH, path_cost_psum. reflexivity.
+  Qed.
+  (* the combination exercised by the cost driver: w1 x path length + w2 x state-cost integral *)
+  Corollary cost_length_plus_integral w1 w2 (p : list pt) :
+    cost_multi RA S [(w1, length_motion RA S d); (w2, integral_motion RA S d)] p = w1 * cost_length RA S d p + w2 * cost_integral RA S d p.
+  Proof. rewrite cost_multi_is_weighted_sum. cbn [fold_right fst snd]. unfold cost_length, cost_integral, length_motion, integral_motion. lra. Qed.
+End MultiR.
 Section WorkMetric.
   Variable S : Type.
   Variable d : S -> S -> R.
